@@ -27,7 +27,7 @@ func init() {
 		Min:   2,
 		Doc: "the server's injectTurnCredentials does not require a port in a --turn-server URL, so the client's parseTurnServer must give a port-less URL the RFC 7065 default: " +
 			"an assignment of net.JoinHostPort(<host>, \"3478\") reached only under Port() == \"\" and a scheme that is not turns, and one of net.JoinHostPort(<host>, \"5349\") only under Port() == \"\" and scheme turns, " +
-			"both to the variable that becomes turnServerConfig.addr and both on paths that precede every 'missing port' rejection; if the server side rejects port-less URLs itself the obligation is void",
+			"both to the variable that becomes turnServerConfig.addr and both on paths that precede every 'missing port' rejection; a port the server side fills in itself must obey the same scheme table (a server that writes 3478 into a port-less turns: URL sends the client to the wrong endpoint)",
 		Run: runTurnPort,
 	})
 }
@@ -175,21 +175,27 @@ func runTurnPort(c *Ctx) {
 		c.MissingAnchor("cmd/thruserv.injectTurnCredentials / ice.parseTurnServer")
 		return
 	}
-	// does the server side look at the port at all?
-	srvPort := false
+	// the analysis below is applied to both siblings: whoever fills in a port for a port-less URL has to use the default of the
+	// URL's own scheme. The client must do so (the server does not reject such URLs); the server may.
+	srvRejectsPortless := false
 	InspectNoLits(srv.Body, func(m ast.Node) bool {
 		if call, ok := m.(*ast.CallExpr); ok {
-			if fn := Callee(srv.Info(), call); fn != nil && (fn.Name() == "Port" || fn.Name() == "SplitHostPort") {
-				srvPort = true
+			if fn := Callee(srv.Info(), call); fn != nil && fn.Name() == "SplitHostPort" {
+				srvRejectsPortless = true
 			}
 		}
 		return true
 	})
-	if srvPort {
-		c.OK("port-default/void", srv.Pos(), "the server inspects the port of a --turn-server URL itself")
-		c.OK("port-default/void2", srv.Pos(), "the server inspects the port of a --turn-server URL itself")
-		return
+	for _, side := range []struct {
+		f        *FuncInfo
+		name     string
+		mustHave bool
+	}{{cli, "client", !srvRejectsPortless}, {srv, "server", false}} {
+		runTurnPortSide(c, side.f, side.name, side.mustHave)
 	}
+}
+
+func runTurnPortSide(c *Ctx, cli *FuncInfo, side string, mustHave bool) {
 	info := cli.Info()
 	isPortEmpty := func(e ast.Expr) (neg bool, ok bool) {
 		be, isB := ast.Unparen(e).(*ast.BinaryExpr)
@@ -270,16 +276,23 @@ func runTurnPort(c *Ctx) {
 		}
 		return true
 	})
-	if addrVar == nil {
+	if addrVar == nil && mustHave {
 		c.Unknown("port-default/addr", cli.Pos(), "cannot find the variable stored into turnServerConfig.addr")
 		return
+	}
+	pfx := "port-default/"
+	if side != "client" {
+		pfx = "port-default/" + side + "/"
 	}
 	want := map[string]string{"3478": "not-turns", "5349": "turns"}
 	seen := map[string]bool{}
 	var defaults []NodeRef
 	cli.CFG().EachNode(func(r NodeRef) {
 		as, ok := r.Node().(*ast.AssignStmt)
-		if !ok || len(as.Lhs) != 1 || len(as.Rhs) != 1 || ObjOf(info, as.Lhs[0]) != addrVar {
+		if !ok || len(as.Lhs) != 1 || len(as.Rhs) != 1 {
+			return
+		}
+		if side == "client" && ObjOf(info, as.Lhs[0]) != addrVar {
 			return
 		}
 		call, ok := ast.Unparen(as.Rhs[0]).(*ast.CallExpr)
@@ -292,7 +305,7 @@ func runTurnPort(c *Ctx) {
 		}
 		port := constant.StringVal(tv.Value)
 		fact, known := want[port]
-		key := "port-default/" + port
+		key := pfx + port
 		if !known {
 			c.Bad(key, as.Pos(), "a port-less TURN URL is given port "+port+", which is neither 3478 (turn) nor 5349 (turns): the client derives another endpoint than the operator's relay listens on")
 			return
@@ -300,8 +313,14 @@ func runTurnPort(c *Ctx) {
 		seen[port] = true
 		defaults = append(defaults, r)
 		c.Check(spec.Passed(cli, r, "no-port") && spec.Passed(cli, r, fact), key, as.Pos(), "default port "+port+" is applied only to a port-less URL of the matching scheme",
-			"the default port "+port+" is assigned on a path where the URL has a port of its own or the scheme is the other one: the client derives another endpoint than the server minted")
+			"the "+side+" side assigns the default port "+port+" on a path where the URL has a port of its own or the scheme is the other one (a port-less `turns:` URL means 5349, RFC 7065): the client derives another endpoint than the operator configured")
 	})
+	if !mustHave {
+		if len(defaults) == 0 {
+			c.OK(pfx+"none", cli.Pos(), "the "+side+" side fills in no port of its own")
+		}
+		return
+	}
 	for port := range want {
 		if !seen[port] {
 			c.Bad("port-default/"+port, cli.Pos(), "parseTurnServer never gives a port-less URL the default port "+port+": the server mints credentials for `--turn-server turn:relay.example.org` (it does not require a port), the client rejects them with 'missing TURN port' and silently runs without a relay")
